@@ -1,1 +1,10 @@
 import BU.Properties.C11
+#print axioms C11.consts_tie
+#print axioms C11.segwit_prefixes
+#print axioms C11.hrp_cases
+#print axioms C11.core
+#print axioms C11.roundtrip
+#print axioms C11.recreate
+#print axioms C11.accept_sound
+#print axioms C11.predicate_valid
+#print axioms C11.predicate_rejects
